@@ -21,7 +21,7 @@ fn model_get(r: u32, v1: u32, x1: Option<u8>, v2: u32, x2: Option<u8>, n: usize)
 // @bound: a committed history of exactly two entries at versions v1 < v2 <= cur < 2^31 (values symbolic, second entry possibly a removal marker), then 2 writer operations from {update(x), remove, rollback} at the writer's version w = cur+1, with a symbolic reader version r <= cur: every reader sees exactly what it saw before (isolation); the writer sees its own last write; after rollback every version sees the pre-state (abort invisible)
 // @assume: versions below 2^31 so that serial order is a total order on the history (the window in which RFC 1982 comparison is defined)
 // @outside: histories of more than 2 committed entries; real-thread schedules, the write mutex, ZoneVersions publication and walk() (not sequential code)
-// @tier: thorough
+// @tier: experimental
 // @timeout: 7200
 // @mem: 40
 #[kani::proof]
@@ -38,7 +38,7 @@ fn c09_versioned_isolation_and_abort_h1() {
     isolation::<1, 2>()
 }
 
-// @tier: thorough
+// @tier: experimental
 // @timeout: 7200
 // @mem: 40
 // @funcs: Versioned::{new,update,remove,rollback,get}, Version::next
